@@ -124,3 +124,41 @@ def replay(pid, path):
         print("VIOLATION property=%s replay=%s" % (pid, path))
         return 1
     return 0
+
+
+class BProp:
+    def __init__(self, pid, conditions, functions, files, bounds, claims, extra=None):
+        self.ID = pid
+        self.conditions = conditions
+        self.functions = functions
+        self.files = files
+        self.bounds = bounds
+        self.claims = claims
+        self.extra = extra  # callable(tier) -> (list of Engine A outcome dicts, extra coverage dict)
+
+    def main(self, tier, only=None):
+        import re
+
+        t0 = time.time()
+        cs = self.conditions(tier)
+        if only:
+            cs = [c for c in cs if re.search(only, c["func"])]
+        res = chrun.run_conditions(cs, tier)
+        extra_res, extra_cov = [], None
+        if self.extra and not only:
+            out = self.extra(tier)
+            extra_res, extra_cov = out if isinstance(out, tuple) else (out, None)
+        return finish(self.ID, tier, res, t0, functions=self.functions, files=self.files, bounds=self.bounds, claims=self.claims,
+                      extra_results=extra_res, extra_cov=extra_cov)
+
+    def replay(self, path):
+        r = replay(self.ID, path)
+        if r is None:
+            print("replay of Engine A counterexamples for %s: run ./check %s and inspect the stored replay file" % (self.ID, self.ID))
+            return 3
+        return r
+
+    def export(self, g):
+        g["ID"] = self.ID
+        g["main"] = self.main
+        g["replay"] = self.replay
